@@ -19,7 +19,7 @@ VARIABLES sh,        \* the abstract message (shape) of this behaviour
           pc,        \* encode: number of script steps performed
           last       \* ghost: the step just performed
 
-vars == <<sh, mode, buf, pc, last>>
+vars == <<sh, mode, buf, pc, last, memo>>
 
 V0 == Margin                       \* 0-based offset of the message view
 
@@ -164,7 +164,8 @@ DenApply(b, s, st) ==
 NoExt(s) == \A i \in 1 .. Len(s.ext) : s.ext[i] = 0
 Region(s) == Background(Margin + Len(MsgImage(MI, s)) + Margin)
 
-Init == /\ sh \in Shapes
+Init == /\ MemoInit
+        /\ sh \in Shapes
         /\ \/ /\ mode = "decode"
               /\ buf = Overlay(Region(sh), MsgImage(MI, sh), V0)
            \/ /\ mode = "encode"
@@ -178,7 +179,7 @@ EncodeStep == /\ mode = "encode"
               /\ buf' = OpApply(buf, sh, Script(sh)[pc + 1])
               /\ pc' = pc + 1
               /\ last' = Script(sh)[pc + 1]
-              /\ UNCHANGED <<sh, mode>>
+              /\ UNCHANGED <<sh, mode, memo>>
 
 Next == EncodeStep
 Spec == Init /\ [][Next]_vars
